@@ -6,7 +6,7 @@ Blocks (`case <id>` … `end`):
         / cdfkeys <hex>… / cdf <i> <hex>… (one line per row i, aligned with cdfkeys)
                                             -> `<id> <hex>…`   createTimepoints; `bad-op` if the model asks for a
                                                (row, argument) that is not in the oracle tables
-  op nonfixed / n <N> / samples <u>… / times <hex>…   -> `<id> <u>…`
+  op nonfixed / flags <f>… / times <hex>…   -> `<id> <u>…`   (samples derived from the flags column)
   op usergrid / twoN <hex> / user <hex>…    -> `<id> <hex>…`   stored grid for a constant population size
 -/
 import TsdateVerif.Model.PriorGrid
@@ -67,12 +67,11 @@ def runCase (blk : List (List String)) : Option String := do
     let out := createTimepoints ppf cdf perc sep maxTips
     pure (id ++ " " ++ " ".intercalate (out.map floatToHex))
   | "nonfixed" =>
-    let n ← (← (← field blk "n").head?).toNat?
-    let samples ← mapAll String.toNat? (← field blk "samples")
+    let flags ← mapAll String.toNat? (← field blk "flags")
     let times ← mapAll hexToFloat (← field blk "times")
-    if times.length ≠ n then none
+    if times.length ≠ flags.length then none
     let ta := times.toArray
-    let out := nonfixed n samples (fun u => ta[u]!)
+    let out := nonfixedOfFlags flags (fun u => ta[u]!)
     pure (id ++ " " ++ " ".intercalate (out.map toString))
   | "usergrid" =>
     let twoN ← hexToFloat (← (← field blk "twoN").head?)
